@@ -106,7 +106,10 @@ def build_world(arch):
     sc.add_objects(l3)
     sc.add_objects([l1, l2])
     sc.add_objects(G.sign(30, (1.0, 3.0)), {1})
-    sc.add_objects(G.light(40, (2.0, 3.0)), {1})
+    # stored parameters in non-canonical form (time offsets beyond one cycle length, an inactive phase): a query must not
+    # normalise what it reads
+    sc.add_objects(G.light(40, (2.0, 3.0), offset=12), {1})
+    sc.add_objects(G.light(41, (12.0, 3.0), cycle=(("red_yellow", 1), ("inactive", 2), ("yellow", 1)), offset=7), {2})
     sc.add_objects(G.static_obstacle(50, 3.0, 1.0))
     sc.add_objects(G.static_obstacle(60, 13.0, 1.0))           # on the successor lanelet
     sc.add_objects(G.dynamic_obstacle(51, 1.0, 1.0, poses=[(2.0, 1.0, 0.0), (3.0, 1.0, 0.1)]))
